@@ -21,7 +21,23 @@ struct SessionClose(u128);
 struct SessionTracker {
     max_sessions: usize,
     id: u128,
-    sessions: BTreeMap<u128, tokio::sync::mpsc::Sender<ServerCommand>>,
+    sessions: BTreeMap<u128, SessionRecord>,
+}
+
+/// What the server keeps per session. Dropping the record ends the session: the closed command
+/// channel tells a session that is waiting for a request, and the task is aborted for the one
+/// that is not, e.g. because it is blocked writing a reply to a peer that does not read.
+struct SessionRecord {
+    commands: tokio::sync::mpsc::Sender<ServerCommand>,
+    task: Option<tokio::task::AbortHandle>,
+}
+
+impl Drop for SessionRecord {
+    fn drop(&mut self) {
+        if let Some(task) = self.task.take() {
+            task.abort();
+        }
+    }
 }
 
 impl SessionTracker {
@@ -59,8 +75,20 @@ impl SessionTracker {
         }
 
         let id = self.get_next_id();
-        self.sessions.insert(id, sender);
+        self.sessions.insert(
+            id,
+            SessionRecord {
+                commands: sender,
+                task: None,
+            },
+        );
         id
+    }
+
+    fn set_task(&mut self, id: u128, task: tokio::task::AbortHandle) {
+        if let Some(record) = self.sessions.get_mut(&id) {
+            record.task = Some(task);
+        }
     }
 
     pub(crate) fn remove(&mut self, id: u128) {
@@ -145,10 +173,10 @@ where
             ServerCommand::Shutdown => return,
         }
 
-        for sender in self.tracker.sessions.values_mut() {
+        for record in self.tracker.sessions.values_mut() {
             // best effort to send the command to each session this isn't critical so we wouldn't
             // want to slow the server down by awaiting it
-            let _ = sender.send(command).await;
+            let _ = record.commands.send(command).await;
         }
     }
 
@@ -233,7 +261,8 @@ where
             session.instrument(tracing::info_span!("Session", "id" = ?id, "remote" = ?addr));
 
         // spawn the session off onto another task
-        tokio::spawn(session);
+        let task = tokio::spawn(session);
+        self.tracker.set_task(id, task.abort_handle());
     }
 }
 
